@@ -28,6 +28,18 @@ pub fn rs_stub() -> std::hash::RandomState {
     unsafe { std::mem::transmute::<(u64, u64), std::hash::RandomState>((0, 0)) }
 }
 
+// binread's `debug_template` feature (enabled by candid) makes every derive-generated
+// reader call into binread::binary_template, which locks a lazy_static Mutex holding an
+// optional `Box<dyn Write>` opened from $DEBUG_TEMPLATE and writes a 010-editor template.
+// Environment model: DEBUG_TEMPLATE is unset, so these functions are no-ops.
+pub fn bt_start(_n: &str) {}
+pub fn bt_comment(_c: &str) {}
+pub fn bt_end(_n: Option<&str>) {}
+pub fn bt_named(_e: binread::Endian, _p: u64, _t: &str, _v: &str) {}
+pub fn bt_write(_e: binread::Endian, _p: u64, _t: &str) {}
+pub fn bt_vec_named(_e: binread::Endian, _p: u64, _t: &str, _c: usize, _n: &str) {}
+pub fn bt_vec(_e: binread::Endian, _p: u64, _t: &str, _c: usize) {}
+
 /// Guarded cut: every harness uses an empty type environment and types without
 /// `Var`/`Knot`, for which `trace_type_with_depth` is `Ok(t.clone())`. Reaching
 /// it with a `Var`/`Knot` fails the harness instead of being silently mis-modelled.
@@ -49,6 +61,13 @@ macro_rules! de_harness {
         #[kani::stub(std::io::_eprint, crate::de::verif_kani::common::eprint_stub)]
         #[kani::stub(std::hash::RandomState::new, crate::de::verif_kani::common::rs_stub)]
         #[kani::stub(crate::types::type_env::TypeEnv::trace_type_with_depth, crate::de::verif_kani::common::trace_stub)]
+        #[kani::stub(binread::binary_template::write_start_struct, crate::de::verif_kani::common::bt_start)]
+        #[kani::stub(binread::binary_template::write_comment, crate::de::verif_kani::common::bt_comment)]
+        #[kani::stub(binread::binary_template::write_end_struct, crate::de::verif_kani::common::bt_end)]
+        #[kani::stub(binread::binary_template::write_named, crate::de::verif_kani::common::bt_named)]
+        #[kani::stub(binread::binary_template::write, crate::de::verif_kani::common::bt_write)]
+        #[kani::stub(binread::binary_template::write_vec_named, crate::de::verif_kani::common::bt_vec_named)]
+        #[kani::stub(binread::binary_template::write_vec, crate::de::verif_kani::common::bt_vec)]
         $(#[$m])*
         pub fn $name() $body
     };
